@@ -136,3 +136,166 @@ impl Jar for SimJar {
         Err(anyhow!("SimJar is not stored to files"))
     }
 }
+
+// ------------------------------------------------------------------------------------------------
+// LazyJar: the jar seam at entry level
+
+/// Faults of a `LazyJar`: every fallible entry-level operation of the jar (look an entry up, classify it, read /
+/// visit / write a class) is one event, numbered in call order over the life of the jar value; the listed events
+/// fail. `sticky`: every event from the first failing one on fails (a store that stays broken); otherwise the
+/// failure is transient and the same operation succeeds when asked again.
+#[derive(Clone, Debug, Default, PartialEq, Serialize, Deserialize)]
+pub struct LazyPlan {
+    pub fail_at: Vec<u32>,
+    #[serde(default)]
+    pub sticky: bool,
+    /// legal schedule (chunking / short reads / EINTR) of the per-class byte source
+    #[serde(default)]
+    pub io: IoPlan,
+}
+
+#[derive(Default)]
+pub struct LazyState {
+    pub ops: u32,
+    pub failed: u32,
+    pub log: Digest,
+    pub stats: Vec<IoStats>,
+}
+
+/// A jar whose entries are fetched one operation at a time (`impl dukebox::storage::Jar` without the zip crate):
+/// classes are parsed from a `SimReader` at the moment `IsClass::read` / `visit` is called, so that a store that
+/// fails once, or from some point on, can be simulated at exactly one entry operation.
+pub struct LazyJar {
+    pub entries: Vec<(String, EntryData)>,
+    pub plan: LazyPlan,
+    pub state: Mutex<LazyState>,
+}
+
+impl LazyJar {
+    pub fn new(entries: Vec<(String, EntryData)>, plan: &LazyPlan) -> LazyJar {
+        LazyJar { entries, plan: plan.clone(), state: Mutex::new(LazyState::default()) }
+    }
+    fn tick(&self, what: u64) -> Result<()> {
+        let mut s = self.state.lock().unwrap_or_else(|e| e.into_inner());
+        let n = s.ops;
+        s.ops += 1;
+        s.log.u64(what);
+        let fail = self.plan.fail_at.contains(&n) || (self.plan.sticky && s.failed > 0);
+        if fail {
+            s.failed += 1;
+            s.log.u64(0xE10);
+            return Err(anyhow!("sim: entry operation {n} failed (input/output error)"));
+        }
+        Ok(())
+    }
+    pub fn failed(&self) -> u32 {
+        self.state.lock().unwrap_or_else(|e| e.into_inner()).failed
+    }
+    pub fn report(&self, st: &mut crate::engine::RunStats) {
+        let s = self.state.lock().unwrap_or_else(|e| e.into_inner());
+        for io in &s.stats {
+            st.io(io, Digest::new());
+        }
+        st.sched.u64(s.log.0);
+        st.events += s.ops as u64;
+        st.probe_n("lazyjar.entry_operations", s.ops as u64);
+        if s.failed > 0 {
+            st.fired(&[if self.plan.sticky { "entry_op_fails_from_now_on" } else { "entry_op_fails_once" }]);
+        }
+    }
+}
+
+pub struct LazyOpened<'a>(&'a LazyJar);
+pub struct LazyEntry<'a>(&'a LazyJar, usize);
+pub struct LazyClass<'a>(&'a LazyJar, &'a [u8]);
+
+impl Jar for LazyJar {
+    type Opened<'a> = LazyOpened<'a> where Self: 'a;
+    fn open(&self) -> Result<Self::Opened<'_>> {
+        self.tick(1)?;
+        Ok(LazyOpened(self))
+    }
+    fn put_to_file<'a>(&'a self, _suggested: &'a Path) -> Result<&'a Path> {
+        Err(anyhow!("LazyJar is not stored to files"))
+    }
+}
+
+impl<'j> dukebox::storage::OpenedJar for LazyOpened<'j> {
+    type EntryKey = usize;
+    type Entry<'a> = LazyEntry<'j> where Self: 'a;
+    fn entry_keys(&self) -> impl Iterator<Item = usize> + 'static {
+        0..self.0.entries.len()
+    }
+    fn by_entry_key(&mut self, key: usize) -> Result<Self::Entry<'_>> {
+        self.0.tick(2)?;
+        if key >= self.0.entries.len() {
+            return Err(anyhow!("no entry for index {key}"));
+        }
+        Ok(LazyEntry(self.0, key))
+    }
+    fn names(&self) -> impl Iterator<Item = (usize, &'_ str)> {
+        self.0.entries.iter().map(|e| e.0.as_str()).enumerate()
+    }
+    fn by_name(&mut self, name: &str) -> Result<Option<Self::Entry<'_>>> {
+        self.0.tick(3)?;
+        Ok(self.0.entries.iter().position(|e| e.0 == name).map(|i| LazyEntry(self.0, i)))
+    }
+}
+
+impl<'j> dukebox::storage::JarEntry for LazyEntry<'j> {
+    fn name(&self) -> &str {
+        &self.0.entries[self.1].0
+    }
+    fn attrs(&self) -> dukebox::storage::BasicFileAttributes {
+        dukebox::storage::BasicFileAttributes::default()
+    }
+    type Class = LazyClass<'j>;
+    type Other = Vec<u8>;
+    fn to_jar_entry_enum(self) -> Result<dukebox::storage::JarEntryEnum<Self::Class, Self::Other>> {
+        self.0.tick(4)?;
+        let (name, data) = &self.0.entries[self.1];
+        Ok(match data {
+            EntryData::Dir => dukebox::storage::JarEntryEnum::Dir,
+            EntryData::File(b) if name.ends_with(".class") => dukebox::storage::JarEntryEnum::Class(LazyClass(self.0, b)),
+            EntryData::File(b) => dukebox::storage::JarEntryEnum::Other(b.clone()),
+        })
+    }
+}
+
+impl<'j> LazyClass<'j> {
+    fn source(&self) -> SimReader {
+        let n = self.0.state.lock().unwrap_or_else(|e| e.into_inner()).ops as u64;
+        let plan = IoPlan { seed: self.0.plan.io.seed ^ n.wrapping_mul(0x9E37_79B9_7F4A_7C15), faults: vec![], ..self.0.plan.io.clone() };
+        SimReader::new(self.1, &plan)
+    }
+    fn done(&self, r: SimReader) {
+        let mut s = self.0.state.lock().unwrap_or_else(|e| e.into_inner());
+        s.log.u64(r.log.0);
+        s.stats.push(r.stats.clone());
+    }
+}
+
+impl<'j> dukebox::storage::IsClass for LazyClass<'j> {
+    fn read(self) -> Result<duke::tree::class::ClassFile> {
+        self.0.tick(5)?;
+        let mut r = self.source();
+        let out = duke::read_class(&mut r);
+        self.done(r);
+        out
+    }
+    fn visit<M: duke::visitor::MultiClassVisitor>(self, visitor: M) -> Result<M> {
+        self.0.tick(6)?;
+        let mut r = self.source();
+        let out = duke::read_class_multi(&mut r, visitor);
+        self.done(r);
+        out
+    }
+    type Written<'a> = &'a [u8] where Self: 'a;
+    fn write(&self) -> Result<Self::Written<'_>> {
+        self.0.tick(7)?;
+        Ok(self.1)
+    }
+    fn into_class_repr(self) -> dukebox::storage::ClassRepr {
+        dukebox::storage::ClassRepr::Vec { data: self.1.to_vec() }
+    }
+}
